@@ -7,9 +7,22 @@ use crate::w2_ops::*;
 
 const CHARS: [char; 12] = ['a', 'b', 'Z', '0', ' ', 'é', 'ß', 'Ω', '€', '語', '😀', '\u{10FFFF}'];
 
+thread_local! {
+    /// set while generating a "megabyte" script: several of its texts are megabytes long, so that
+    /// a buffer that is already huge meets another huge piece
+    static MEGA: std::cell::Cell<bool> = std::cell::Cell::new(false);
+}
+
 pub fn text(r: &mut Rng, max: usize) -> String {
     // now and then a long text: thresholds in the code under test (chunk sizes, word-at-a-time
     // loops, amortisation steps) lie well above the usual handful of characters
+    if r.chance(1, 2500) || (MEGA.with(|m| m.get()) && r.chance(1, 5)) {
+        // megabytes: buffer sizes at which allocators and growth policies change strategy
+        // (huge pages, capped doubling); built from a short unit to stay cheap
+        let unit: String = (0..1 + r.usize_below(7)).map(|_| *r.pick(&CHARS)).collect();
+        let want = (1usize << 20) + r.usize_below(3 << 19);
+        return unit.repeat(want / unit.len().max(1) + 1);
+    }
     let n = if r.chance(1, 60) {
         if r.chance(1, 12) {
             // around 2^16 bytes
@@ -380,7 +393,7 @@ pub fn bop(r: &mut Rng) -> BOp {
         18 | 19 => BOp::Downcast { i, matching: r.chance(1, 2), send: r.chance(1, 2) },
         20 => BOp::ArrayToSlice(i),
         21 => BOp::SliceToArray { i, matching: true },
-        22 => BOp::VecToBox { n: small(r).min(20), tag0: r.below(11) as u32 },
+        22 => BOp::VecToBox { n: small(r).min(20), tag0: r.below(11) as u32, spare: if r.chance(1, 4) { *r.pick(&[1usize, 7, 100, 511, 512, 513, 700, 5000]) } else { 0 } },
         23 => BOp::FromIter { n: small(r).min(20), tag0: r.below(11) as u32, collect: r.chance(1, 2) },
         24 => BOp::IterBox { n: r.usize_below(12), front: r.below(4) as u8, back: r.below(4) as u8 },
         25 => BOp::Fmt(i),
@@ -477,7 +490,12 @@ pub fn gen_w2(seed: u64, focus: Focus) -> W2Script {
         clients.push(k);
     }
     let mut rngs: Vec<Rng> = (0..n_clients).map(|i| root.sub(100 + i as u64)).collect();
-    let n_steps = if cfg.chance(3, 4) { cfg.geo(2, 40, 14) } else { cfg.geo(20, 120, 50) };
+    let mut n_steps = if cfg.chance(3, 4) { cfg.geo(2, 40, 14) } else { cfg.geo(20, 120, 50) };
+    let mega = focus == Focus::Str && cfg.chance(1, 300);
+    if mega {
+        n_steps = n_steps.min(16);
+    }
+    MEGA.with(|m| m.set(mega));
     // scheduler: the focus client gets half of the steps
     let mut steps = Vec::with_capacity(n_steps);
     for _ in 0..n_steps {
@@ -492,6 +510,7 @@ pub fn gen_w2(seed: u64, focus: Focus) -> W2Script {
         };
         steps.push((ci as u8, op));
     }
+    MEGA.with(|m| m.set(false));
     W2Script {
         clients,
         capacity: *cfg.pick(&[0usize, 0, 1, 100, 448, 3000]),
